@@ -227,6 +227,12 @@ def ToolItem.fields : ToolItem → List String
   | .callField f _ => [f]
   | _ => []
 
+/-- the cache-key input of the file `sv.filePath` as CppCheck::checkInternal builds it: toolinfo rendered from the settings by the
+    chain `items` (`none`: the chain names a field the view does not carry) -/
+def FileInput.ofSettings (items : List ToolItem) (sv : SettingsView) (main : List RawTok) (headers : List Header) (opts : Str) :
+    Option FileInput :=
+  (renderToolinfo items sv).map fun ti => { path := sv.filePath, toolinfo := ti, main := main, headers := headers, opts := opts }
+
 /-! ## 2b. which option reaches the key (C19) -/
 
 /-- an analysis option and the `Settings` fields (or command line parser targets) its handler writes -/
@@ -487,6 +493,15 @@ def runWithCache (W : World H S F) (vis : Finding → Bool) (st : BdState H S F)
   let (bd1, outs) := runFiles W sr vis ft st.1 files
   ((bd1, ft), { perFile := outs, whole := (W.wp (collect bd1 ft)).filterMap (report vis) })
 
+/-- a run with `--cppcheck-build-dir` and several jobs: files.txt lists `files`, the workers finish the files in the order
+    `order` (each file is one atomic step: the workers touch pairwise different cache files when `MapOK` holds) -/
+def runWithCacheSched (W : World H S F) (vis : Finding → Bool) (st : BdState H S F) (files order : List FileInput) :
+    BdState H S F × Report :=
+  let sr := srOf W st.1 st.2
+  let ft := filesTxt (files.map (·.path))
+  let (bd1, outs) := runFiles W sr vis ft st.1 order
+  ((bd1, ft), { perFile := outs, whole := (W.wp (collect bd1 ft)).filterMap (report vis) })
+
 /-- a run without a build directory -/
 def runFresh (W : World H S F) (vis : Finding → Bool) (files : List FileInput) : Report :=
   { perFile := files.map fun i => (W.analyze [] i.view).filterMap (report vis),
@@ -554,8 +569,8 @@ def bugsOf (file : Str) (ts : List RawTok) : List Finding :=
     one per `%` token when the options contain `i`,
     and one per `~` token when the return summaries name `f`; summary: the `?` tokens; function summary: whether the file
     has a token `f`; whole-program finding: one per file that has a `?` while another listed file has one too -/
-def toyWorld (enc : Encoding) (lk : LookupKind) : World Str (List RawTok) Bool :=
-  { hash := id
+def toyWorldH {H : Type} (hash : Str → H) (enc : Encoding) (lk : LookupKind) : World H (List RawTok) Bool :=
+  { hash := hash
     analyze := fun sr v => bugsOf v.path v.main ++ (v.headers.flatMap fun h => bugsOf h.1 h.2)
       ++ (if v.opts.contains 'i' then (v.main.filter fun t => t.str == ['%']).map fun t =>
             { id := "inconclusive".toList, file := v.path, line := t.line, col := t.col, msg := [] } else [])
@@ -569,6 +584,12 @@ def toyWorld (enc : Encoding) (lk : LookupKind) : World Str (List RawTok) Bool :
     loadRet := fun l => if l.any id then [['f']] else []
     enc := enc
     lk := lk }
+
+/-- the witness world with the identity "hash" -/
+def toyWorld (enc : Encoding) (lk : LookupKind) : World Str (List RawTok) Bool := toyWorldH id enc lk
+
+/-- a 16-bit polynomial hash: not injective (`"Aa"` and `"BB"` collide), like every function into a finite type -/
+def lossyHash (s : Str) : Nat := s.foldl (fun a c => (a * 31 + c.toNat) % 65536) 7
 
 def mkInput (path : String) (toks : List (String × Nat × Nat)) (headers : List (String × List (String × Nat × Nat)) := [])
     (toolinfo : String := "v") (opts : String := "") : FileInput :=
